@@ -138,10 +138,10 @@ def handle (op : String) (args : List String) : String :=
       match allToks is with
       | none =>
         let l := flatten is
-        s!"ok 0 {b01 (texts l == s)} {b01 (linesOk 0 l)} {b01 (commentsOk false l)} {b01 (h3 none none l)}"
+        s!"ok 0 {b01 (texts l == s)} {b01 (linesOk 0 l)} {b01 (commentsOk false l)} {b01 (h3 none none false l)}"
       | some ts =>
         let l := ops ts
-        s!"ok 1 {b01 (texts l == s)} {b01 (linesOk 0 l)} {b01 (commentsOk false l)} {b01 (h3 none none l)}"
+        s!"ok 1 {b01 (texts l == s)} {b01 (linesOk 0 l)} {b01 (commentsOk false l)} {b01 (h3 none none false l)}"
     | _, _ => "bad-args"
   | "brk", [a, b] =>
     match a.toNat?, b.toNat? with
